@@ -34,7 +34,7 @@ PROP = 'C14'
 LEVEL = 'exploration'
 COUNTS = {'quick': 120, 'thorough': 3000}
 BUDGET = {'quick': 115, 'thorough': 1500}
-TIMEOUT = 300
+TIMEOUT = 600
 SHRINK_LISTS = [['cuts'], ['events']]
 EXPECTED_PROBES = ['resume', 'snapshot', 'snapshot_keep', 'snapshot_file', 'crash_restore', 'torn', 'reset_pf',
                    'cut_at_event', 'cut_off_grid', 'exact_match', 'estimate_match', 'events_after_cut']
@@ -488,10 +488,43 @@ def execute(plan):
                     bound = 3 * est + 200 * tol
                     probes['estimate_match'] = 1
                     res['est_ratio'] = info['final'] / bound
+                    kinds = sorted({c['how'] for c in plan['cuts']})
+                    if info['final'] > bound and any(k_ not in ('resume', 'reset_pf') for k_ in kinds):
+                        # an interruption off the grid inserts a grid point, which alone can move a stiff post-event transient by more
+                        # than the step-halving estimate (kundur_vsc, cut 5e-5 s after the event: plain resume differs from the
+                        # uninterrupted run by 2.6e-5, estimate 3e-6).  Separate the two effects with a twin that is interrupted at
+                        # the same instants by plain resume: the snapshot / restart machinery must follow that twin closely, and
+                        # plain resume must stay within ten times the estimate.
+                        p3 = json.loads(json.dumps(plan))
+                        for c_ in p3['cuts']:
+                            if c_['how'] not in ('resume', 'reset_pf'):
+                                c_['how'] = 'resume'
+                                c_.pop('crash_after', None)
+                        tw = tdssim.new_hist()
+                        ss_tw = run_subject(p3, tw)
+                        if tdssim.run_ok(tw):
+                            def _rel(xa, ya, xb, yb):
+                                mk2 = (ss_ref.dae.Tf != 0)
+                                return max(float(np.max((np.abs(xa - xb) / (1 + np.abs(xb)))[mk2])) if mk2.any() else 0.0,
+                                           float(np.max(np.abs(ya - yb) / (1 + np.abs(yb)))))
+                            xs_, ys_ = (sub['sub']['xf'], sub['sub']['yf']) if 'sub' in sub else (ss_sub.dae.x, ss_sub.dae.y)
+                            d_rt = _rel(xs_, ys_, ss_tw.dae.x, ss_tw.dae.y)
+                            d_ru = _rel(ss_tw.dae.x, ss_tw.dae.y, ss_ref.dae.x, ss_ref.dae.y)
+                            probes['resume_twin_used'] = 1
+                            if d_rt > 1e-6 + 50 * tol:
+                                v.append(V('trajectory', 'final state after %s differs from the same run interrupted by plain resume at the same '
+                                           'instants by %.3g (relative)' % (kinds, d_rt), what='final_vs_resume_twin', kinds=','.join(kinds)))
+                            elif d_ru > 10 * est + 200 * tol:
+                                v.append(V('trajectory', 'final state of the run resumed at the same instants differs from the uninterrupted '
+                                           'run by %.3g (relative), 10x step-halving estimate %.3g' % (d_ru, est), what='final',
+                                           kinds=','.join(kinds)))
+                            bound = float('inf')
+                    elif info['final'] > bound and set(kinds) <= {'resume', 'reset_pf'}:
+                        bound = 10 * est + 200 * tol
                     if info['final'] > bound:
                         v.append(V('trajectory', 'final state of the interrupted run differs from the uninterrupted run by %.3g '
-                                   '(relative), bound %.3g (3x step-halving estimate %.3g + 200 tol)' % (info['final'], bound, est),
-                                   what='final', kinds=','.join(sorted({c['how'] for c in plan['cuts']}))))
+                                   '(relative), bound %.3g (step-halving estimate %.3g)' % (info['final'], bound, est),
+                                   what='final', kinds=','.join(kinds)))
                 else:
                     probes['estimate_skipped'] = 1
         # --- event log: nothing lost, nothing repeated across boundaries
